@@ -12,10 +12,11 @@ class Const(V):
     def __init__(self, val, ty=None):
         self.val = val
         self.ty = ty
-        self._h = hash(("C", val if not isinstance(val, float) else repr(val), _tyname(ty)))
+        self._h = hash(("C", val if not isinstance(val, float) else repr(val)))
 
     def __eq__(self, o):
-        return isinstance(o, Const) and o._h == self._h and repr(o.val) == repr(self.val) and _tyname(o.ty) == _tyname(self.ty)
+        return isinstance(o, Const) and o._h == self._h and repr(o.val) == repr(self.val) and type(o.val) is type(self.val) and \
+            (self.ty is None or o.ty is None or _tyname(o.ty) == _tyname(self.ty))
 
     def __hash__(self):
         return self._h
